@@ -6,6 +6,10 @@ C08 — Malformed or foreign packets are discarded without panic or effect (endp
 the remaining fields.
 -/
 import GgrsModel.Model.Inventory
+import GgrsModel.Model.Sites.Protocol
+import GgrsModel.Model.Sites.Compression
+import GgrsModel.Model.Sites.P2pSession
+import GgrsModel.Model.Sites.SpectatorSession
 import GgrsModel.Proofs.Endpoint
 import GgrsModel.Properties.C14
 import GgrsModel.Model.P2P
